@@ -242,7 +242,7 @@ def gen_cases(run):
         dict(split_method='random_agop_on_subset', task='reg1', n=70, kernel='lpq', split_temperature=0.3),
         dict(split_method='random_pca', task='bin', n=30, max_leaf_size=40, bandwidth_mode='adaptive'),  # single leaf, adaptive
     ]
-    reps = 1 if quick else 4
+    reps = 2 if quick else 30
     for rep in range(reps):
         for k, cfg in enumerate(drawing):
             p = dict(base, **cfg)
@@ -300,7 +300,10 @@ def check(run):
                        'kernels are outside the RNG inventory; eigenpro.py re-seeds numpy globally (noted)',
                        'n_tree_iters = 0 and time_limit_s = None (not modelled)']
     run.trusted += ['extract/gen_rng.py (call-site patterns for random draws)', 'extract/gen_fitobj.py (entry-block analysis of xRFM.fit)']
+    import time
+    t0 = time.time()
     run.lean()
+    run.extra['lean_s'] = round(time.time() - t0, 1)   # includes waiting for the shared build lock
     cases = gen_cases(run)
     if run.driver_ok:
         results = core.pmap(MOD, [{'cases': [c]} for c in cases])
